@@ -53,6 +53,13 @@ def copied_members(f, own, src):
             nm = t["member"]["name"]
         if nm in own and _mentions(rhs, src):
             out.add(nm)
+    # a standard algorithm that writes into a member's range (or through an inserter on it) while reading the source
+    for n in f.all_nodes():
+        if is_call(n) and n["callee"]["qname"].startswith("std::") and n["callee"]["name"] in ("transform", "copy", "copy_n", "copy_if", "fill", "generate", "for_each", "move") and _mentions(n, src):
+            for a in f.args(n):
+                for x in walk(a):
+                    if x["k"] == "MemberExpr" and x["member"]["kind"] == "field" and x["member"].get("this") and x["member"]["name"] in own:
+                        out.add(x["member"]["name"])
     # element-wise re-population from the source: loops that push into / index a member while reading the source
     for n in f.all_nodes():
         if is_call(n) and n["callee"]["name"] in ("push_back", "emplace_back", "insert", "emplace", "operator[]") and "obj" in n:
